@@ -235,7 +235,7 @@ _S = "src/torchphysics/solver.py"
 MUTANTS = [
     dict(id="C19-M1", file=_CBF, old="                torch.save(\n                    self.model.state_dict(),\n                    self.path + \"/\" + self.name + \"_min_loss.pt\",\n                )", new="                torch.save(\n                    pl_module.state_dict(),\n                    self.path + \"/\" + self.name + \"_min_loss.pt\",\n                )", rule="R-C19-2", what="LightningModule state saved instead of the model's"),
     dict(id="C19-M2", file=_CBF, old="self.path + \"/\" + self.name + \"_min_loss.pt\"", new="self.path + \"/\" + self.name + \"_final.pt\"", rule="R-C19-2", what="same file name twice"),
-    dict(id="C19-M3", file=_CBF, old="                weights_only=self.weights_only,", new="                weights_only=True,", rule="R-C19-2", what="weights_only hard-coded"),
+    dict(id="C19-M3", file=_CBF, old="self.name + \".ckpt\", weights_only=self.weights_only", new="self.name + \".ckpt\", weights_only=True", rule="R-C19-2", what="weights_only hard-coded"),
     dict(id="C19-M7", file=_S, old="        self.n_training_step = self.trainer.global_step\n", new="        self.n_training_step = 0\n", rule="R-C19-4", what="step counter reset on resume"),
     dict(id="C19-M4", file=_S, old="        self.n_training_step = self.trainer.global_step\n", new="        self.n_training_step = self.trainer.global_step\n        for optimizer in self.trainer.optimizers:\n            for group in optimizer.param_groups:\n                group[\"lr\"] = self.optimizer_setting.lr\n", rule="R-C19-4", what="learning rate overwritten after restore"),
     dict(id="C19-M5", file=_S, old="        return torch.utils.data.DataLoader(torch.empty(steps))", new="        return torch.utils.data.DataLoader(torch.empty(max(steps - self.trainer.global_step, 1)))", rule="R-C19-4", what="loader length depends on the resume position"),
